@@ -95,6 +95,10 @@ def run_api(case: dict, tmp: str) -> dict:
                 except FileNotFoundError:
                     pass
             store = SqliteWorkflowStore(path, poll_interval=case["poll"])
+            import sqlite3
+
+            keeper = sqlite3.connect(path, timeout=30.0)  # harness-side: keeps the WAL attached (speed only)
+            keeper.execute("SELECT count(*) FROM sqlite_master").fetchall()
         api = _WorkflowAPI(SimpleNamespace(store=store, start=anoop, stop=anoop),
                            sse_heartbeat_interval=case.get("hb"))
         await store.update(PersistentHandler(handler_id=HID, workflow_name="wf", run_id=RID,
@@ -191,8 +195,8 @@ def run_api(case: dict, tmp: str) -> dict:
                 obs["error"] = f"request raised {type(r).__name__}: {r}"
         obs["final"] = [[e.sequence, e.event.value["uid"]] for e in await store.query_events(RID)]
         await client.aclose()
-        if case["backend"] != "memory" and getattr(store, "_persistent_conn", None) is not None:
-            store._persistent_conn.close()
+        if case["backend"] != "memory":
+            keeper.close()
 
     r = vclock.run(main, vt_limit=1e5)
     if not r.done:
